@@ -39,6 +39,9 @@ pub struct ObjectJsonIter<'de> {
     first: bool,
     ending: bool,
     skip_strict: bool,
+    // the iterator holds the only handle of its input (`LazyValue::into_object_iter` of a
+    // `FastStr`-backed value): a key borrowed from it would die with the iterator
+    owns_input: bool,
 }
 
 /// A lazied iterator for JSON array text. It will parse the JSON when iterating.
@@ -78,12 +81,14 @@ pub struct ArrayJsonIter<'de> {
 impl<'de> ObjectJsonIter<'de> {
     // input is inner json, expected always be validated and well-formed
     pub(crate) fn new_inner(input: JsonSlice<'de>) -> Self {
+        let owns_input = matches!(input, JsonSlice::FastStr(_));
         Self {
             parser: Parser::new(Read::new_in(input, false)),
             strbuf: Vec::with_capacity(DEFAULT_KEY_BUF_CAPACITY),
             first: true,
             ending: false,
             skip_strict: false,
+            owns_input,
         }
     }
 
@@ -98,6 +103,7 @@ impl<'de> ObjectJsonIter<'de> {
             first: true,
             ending: false,
             skip_strict,
+            owns_input: false,
         }
     }
 
@@ -118,6 +124,10 @@ impl<'de> ObjectJsonIter<'de> {
                 }
                 if let Some(Pair { key, val, status }) = ret {
                     let val = self.parser.read.slice_ref(val);
+                    let key = match key {
+                        Cow::Borrowed(k) if self.owns_input => Cow::Owned(k.to_owned()),
+                        key => key,
+                    };
                     Some(Ok(LazyValue::new(val, status.into())).map(|v| (key, v)))
                 } else {
                     self.ending = true;
